@@ -134,7 +134,7 @@ def shard(ctx, budget_s):
     items = []
     for n in range(ctx.shard, 1473, ctx.nshards):
         for v6 in (False, True):
-            e = gen.endp(rng, cfg, v6)
+            e = gen.endp(rng, cfg, v6, own_src=0.02)
             items.append(("echolen", e.echo(rng.getrandbits(16), rng.getrandbits(16), bytes(rng.getrandbits(8) for _ in range(n)))))
     run_batch(cfg, items)
     # ---- ARP and NS shapes under random configurations ---------------------------------------------------
@@ -144,7 +144,7 @@ def shard(ctx, budget_s):
         cfg = gen.rnd_config(rng, deny=False, logger=rng.choice("nnncl"), level=rng.choice([0, 0, 1, 2, 3, 4, 5]))
         items = []
         for _ in range(60):
-            e = gen.endp(rng, cfg, False)
+            e = gen.endp(rng, cfg, False, own_src=0.02)
             op = rng.choice([1, 1, 1, 2, 0, 3, 4, 5, 6, 7, 8, 9, 10, 0xFFFF, rng.getrandbits(16)])
             tpa = e.sip if rng.random() < 0.6 else gen.rnd_ip4(rng)
             dm = rng.choice([pkt.BCAST, cfg.mac])
@@ -155,7 +155,7 @@ def shard(ctx, budget_s):
             if rng.random() < 0.1:
                 items.append(items[-1])          # byte-identical retransmission
         for _ in range(60):
-            e = gen.endp(rng, cfg, True)
+            e = gen.endp(rng, cfg, True, own_src=0.02)
             target = e.sip if rng.random() < 0.5 else gen.rnd_ip6(rng)
             others = [a for a in (cfg.selfips or []) if len(a) == 16 and a != e.sip]
             if others and rng.random() < 0.3:
@@ -183,7 +183,7 @@ def shard(ctx, budget_s):
                     items.append(("icmp6_other", e.l3(P_ICMP6, pkt.icmp6(e.cip, e.sip, t, 0, bytes(rng.getrandbits(8) for _x in range(rng.choice([4, 8, 20, 28])))))))
             typ = rng.choice([None, None, 0 if not e.v6 else 129])
             items.append(("echo", e.echo(rng.getrandbits(16), rng.getrandbits(16), b"x" * rng.randrange(0, 100), code=rng.choice([0, 0, 0, 1, 3]), typ=typ)))
-            e4 = gen.endp(rng, cfg, False)
+            e4 = gen.endp(rng, cfg, False, own_src=0.02)
             items.append(("echo", e4.echo(rng.getrandbits(16), rng.getrandbits(16), b"y" * rng.randrange(0, 100), code=rng.choice([0, 0, 0, 1, 3]),
                                          typ=rng.choice([None, None, 0]))))
             if rng.random() < 0.15:
